@@ -1030,6 +1030,25 @@ val venc_any : cell0 -> bits * cell0 list
 
 val vdec_any : bits -> cell0 list -> cell0 option
 
+type 'v hop =
+| HMarshal
+| HItems
+| HGet of bits
+| HPut of bits * 'v
+
+type 'v hobs =
+| OCell of cell0 res
+| OItems of (bits * 'v) list
+| OGet of 'v option
+| ODone
+
+val hmarshal :
+  ('a1 -> bits * cell0 list) -> bool -> nat -> (bits * 'a1) list -> cell0 res
+
+val hstep :
+  ('a1 -> bits * cell0 list) -> (bits -> bits -> bool) -> bool -> nat ->
+  (bits * 'a1) list -> 'a1 hop -> (bits * 'a1) list * 'a1 hobs
+
 val venc_val : n -> bits * cell0 list
 
 val vdec_val : bits -> cell0 list -> n option
@@ -1072,6 +1091,16 @@ val addr_items : sx list -> (bits * n) list option
 val sx_addr_item : (bits * n) -> sx
 
 val run_addr : sx -> sx
+
+val obs_sx : n hobs -> sx
+
+val hop_sx : sx -> (n * n hop) option
+
+val run_hsteps :
+  bool -> bool -> nat -> (bits * n) list -> (bits * n) list -> sx list -> sx
+  list
+
+val run_hist : sx -> sx
 
 type strategy =
 | BestPing
@@ -1577,7 +1606,7 @@ val proof_of_sx : sx -> proof option
 
 val run_check : sx -> sx
 
-val run_hist : sx -> sx
+val run_hist0 : sx -> sx
 
 val nominal_now : z
 
@@ -1707,7 +1736,7 @@ val schedule : nat -> nat -> state0 -> obs list -> state0 option
 
 val start_calls : nat -> label0 list
 
-val obs_sx : obs -> sx
+val obs_sx0 : obs -> sx
 
 val sx_eqb_outcome : sx -> sx -> bool
 
@@ -4041,20 +4070,21 @@ val hasher_hash :
 val hasher_hash_string :
   (bytes -> bytes) -> bool -> node list -> hasher -> nat -> hasher * bytes res
 
-type hop =
+type hop0 =
 | OpHash of nat
 | OpHashString of nat
 
 val hasher_step :
-  (bytes -> bytes) -> bool -> node list -> hasher -> hop -> hasher * bytes res
+  (bytes -> bytes) -> bool -> node list -> hasher -> hop0 -> hasher * bytes
+  res
 
 val hasher_run :
-  (bytes -> bytes) -> bool -> node list -> hasher -> hop list -> bytes res
+  (bytes -> bytes) -> bool -> node list -> hasher -> hop0 list -> bytes res
   list
 
-val hop_of_sx : sx -> hop option
+val hop_of_sx : sx -> hop0 option
 
-val hops_of_sx : sx list -> hop list option
+val hops_of_sx : sx list -> hop0 list option
 
 val run_history0 : sx -> sx
 
